@@ -61,6 +61,7 @@ void rep_sample(const char *cls);          /* remember the current descriptor as
 void rep_finish(void);                     /* dump counters/samples as S lines */
 void rep_fatal(const char *fmt, ...) __attribute__((format(printf, 1, 2), noreturn)); /* harness failure: exit 2 */
 const char *rep_curcase(void);
+int  rep_is_resume_point(void);
 extern int g_report_fd;
 extern uint64_t g_viol_total;
 
